@@ -34,6 +34,15 @@ def level1(ctx):
     k = ("l1", id(F))
     if k not in _cache:
         eng = mk_engine(F)
+        eng.cut_sites = []
+
+        def on_call(eng_, st, fr, f, args, site):
+            lp = f["resolved"] or f["path"]
+            if lp in eng_.cuts and args and isinstance(args[0], Slice):
+                eng_.cut_sites.append((st.holds(Lin.const(65538).sub(args[0].len), eng_), fr.path, repr(args[0].len)))
+            return None
+
+        eng.on_call = on_call
         b = F.body(INTERN)
         if b is None:
             _cache[k] = (None, None)
@@ -43,11 +52,14 @@ def level1(ctx):
     return _cache[k]
 
 
-def standalone(ctx, path, cuts=CUTS, names=None):
+def standalone(ctx, path, cuts=CUTS, names=None, plain=False):
     F = ctx.facts
-    k = ("sa", id(F), path, tuple(cuts))
+    k = ("sa", id(F), path, tuple(cuts), plain)
     if k not in _cache:
         eng = mk_engine(F, cuts=[c for c in cuts if c != path])
+        if plain:
+            # loop-carrying function: no forced partitioning on argument kinds (joined at the loop head anyway)
+            eng = Engine(F, budget=3000000)
         b = F.body(path)
         if b is None:
             _cache[k] = (None, None)
